@@ -226,6 +226,18 @@ def _shard_main(pid, tier, seed, shard, nshards, n_examples, do_exhaustive, shri
                                       "features": out.features, "origin": "random", "bucket": bucket})
             excluded_buckets.add(bucket)
             state["last_fail"] = None
+        except hypothesis.errors.FlakyFailure as e:
+            # the case failed once and passed when Hypothesis ran it again in this process: the outcome depends on state
+            # that survives a case (ours or the library's). It is a candidate like any other: the fresh-process
+            # confirmation decides whether it is reported.
+            if state["last_fail"] is None:
+                raise HarnessError(f"hypothesis error in {pid}: {e!r}")
+            case, out, bucket = state["last_fail"]
+            stats["failures"].append({"case": case, "kind": out.kind, "detail": out.detail,
+                                      "features": out.features, "origin": "random (not reproduced in-process)",
+                                      "bucket": bucket})
+            excluded_buckets.add(bucket)
+            state["last_fail"] = None
         except hypothesis.errors.HypothesisException as e:
             raise HarnessError(f"hypothesis error in {pid}: {e!r}")
         remaining -= max(1, stats["evaluations"] - before)
